@@ -121,6 +121,9 @@ type stateObject struct {
 	dirtyCode bool // true if the code was updated
 	suicided  bool
 	deleted   bool
+	// true if the object replaced an existing account (CreateAccount): the storage entries stored
+	// under the address belong to the replaced account, they are not read and are deleted on Finalise
+	freshStorage bool
 }
 
 func newStateObject(db *CommitStateDB, acc *balance.EthAccount) *stateObject {
@@ -194,11 +197,13 @@ func (so *stateObject) GetCommittedState(_ ethstate.Database, key ethcmn.Hash) e
 	state := NewState(prefixKey, ethcmn.Hash{})
 	value := ethcmn.Hash{}
 
-	prefixStore := evm.AddressStoragePrefix(so.Address())
-	rawValue, _ := so.stateDB.contractStore.Get(prefixStore, prefixKey.Bytes())
-	if len(rawValue) > 0 {
-		value.SetBytes(rawValue)
-		state.Value = value.String()
+	if !so.freshStorage {
+		prefixStore := evm.AddressStoragePrefix(so.Address())
+		rawValue, _ := so.stateDB.contractStore.Get(prefixStore, prefixKey.Bytes())
+		if len(rawValue) > 0 {
+			value.SetBytes(rawValue)
+			state.Value = value.String()
+		}
 	}
 
 	so.originStorage = append(so.originStorage, state)
@@ -455,6 +460,7 @@ func (so *stateObject) deepCopy(db *CommitStateDB) *stateObject {
 	newStateObj.suicided = so.suicided
 	newStateObj.dirtyCode = so.dirtyCode
 	newStateObj.deleted = so.deleted
+	newStateObj.freshStorage = so.freshStorage
 
 	return newStateObj
 }
